@@ -342,7 +342,9 @@ def check_exchange(S, rec, rng):
     qs = rng.choice(["", "a=1&b=%C3%A9", "x=%20%2F&y", "raw=é".encode().decode("latin1"), "q=a+b&&="])
     method = rng.choice(["GET", "POST", "PUT", "DELETE", "OPTIONS", "PATCH", "HEAD"])
     absform = rng.random() < 0.1
-    line = (f"http://abs.example{target}" if absform else target) + ("?" + qs if qs else "")
+    # absolute-form targets name any authority: a port, a port number no socket has, text where the port should be
+    absnet = rng.choice(["abs.example", "abs.example", "abs.example:8080", "abs.example:99999", "abs.example:abc", "abs.example:"]) if absform else None
+    line = (f"http://{absnet}{target}" if absform else target) + ("?" + qs if qs else "")
     body = bytes(rng.choice(b"ab\r\n0") for _ in range(rng.randint(0, 30)))
     use_chunked = rng.random() < 0.5
     hdrs = [("Host", "h.example"), ("X-Rep", "a"), ("X-Rep", "b"), ("X_Under", "evil"), ("X-Under", "good"), ("Content-Type", "text/x; p=1")]
@@ -555,7 +557,7 @@ def check_exchange(S, rec, rng):
         return bad("C19/underscore-header-smuggled", f"{env.get('HTTP_X_UNDER')!r}")
     if env.get("CONTENT_TYPE") != "text/x; p=1":
         return bad("C19/content-type-differs", f"{env.get('CONTENT_TYPE')!r}")
-    if env.get("HTTP_HOST") != ("abs.example" if absform else "h.example"):
+    if env.get("HTTP_HOST") != (absnet if absform else "h.example"):
         return bad("C19/host-differs", f"{env.get('HTTP_HOST')!r}")
     if seen["body"] != body:
         return bad("C19/request-body-differs", f"application read {seen['body']!r}, client sent {body!r}")
